@@ -25,12 +25,13 @@ def extra_names(case):
     return names
 
 
-def extra_field_fns(n, names=None):
-    """n distinct pure functions of the individual's program."""
+def extra_field_fns(n, names=None, payload=""):
+    """n distinct pure functions of the individual's program; `payload` is appended to every value
+    (text a CSV writer has to quote: separators, quotes, line breaks of either kind)."""
     fns = {}
     for k in range(n):
         nm = names[k] if names else f"Extra{k}"
-        fns[nm] = (lambda k: (lambda t, i, p: f"e{k}:{i.get_phenotype()[0]}:{sum(i.get_phenotype()[1]) * (k + 1)}"))(k)
+        fns[nm] = (lambda k: (lambda t, i, p: f"e{k}:{i.get_phenotype()[0]}:{sum(i.get_phenotype()[1]) * (k + 1)}{payload}"))(k)
     return fns
 
 
@@ -59,7 +60,7 @@ def build(case, path, extra_recorders_before=(), extra_recorders_after=()):
     if case["fields"] == "custom":
         kwargs["fields"] = custom_field_fns(k)
     if case["n_extra"] > 0:
-        kwargs["extra_fields"] = extra_field_fns(case["n_extra"], extra_names(case))
+        kwargs["extra_fields"] = extra_field_fns(case["n_extra"], extra_names(case), case.get("payload", ""))
     rec = CSVSearchRecorder(path, problem, only_record_best_individuals=case["only_best"], **kwargs)
     recorders = list(extra_recorders_before) + [rec] + list(extra_recorders_after)
     if isinstance(problem, SingleObjectiveProblem):
@@ -101,7 +102,7 @@ def expected_row(case, idx, vec, aggregate):
     cols = header_for(case)
     cells = dict(zip(cols, row))  # the configured columns, then the extra fields by name (an extra
     for j, nm in enumerate(extra_names(case)):  # field named like a column re-defines it in place)
-        cells[nm] = f"e{j}:{idx}:{sum(vec) * (j + 1)}"
+        cells[nm] = f"e{j}:{idx}:{sum(vec) * (j + 1)}{case.get('payload', '')}"
     return [str(cells[c]) for c in cols]
 
 
